@@ -190,6 +190,12 @@ def gen_thread_prog(rng, names, n):
                             ["int", rng.choice(OFFSETS)]])
             else:
                 ops.append(["instance_str", slot, rng.choice(POSIX)])
+        elif r < 0.925:
+            # a request with an argument no zone can be made of: it raises,
+            # and the factories go on serving everybody afterwards
+            ops.append(["bad_request", rng.choice(
+                ["off_huge", "off_none_str", "off_nan", "name_unhashable",
+                 "tzstr_junk", "tzstr_none"])])
         elif r < 0.94:
             ops.append(["cache_clear"])
         elif r < 0.97:
@@ -598,6 +604,34 @@ class Actor(object):
         if k in ("nocache", "instance_off", "instance_str", "mk_local",
                  "mk_range"):
             return self.fresh(op)
+        if k == "bad_request":
+            tz = sim.tz
+            try:
+                if op[1] == "off_huge":
+                    tz.tzoffset("A", 1e16)
+                elif op[1] == "off_none_str":
+                    tz.tzoffset("A", "one hour")
+                elif op[1] == "off_nan":
+                    tz.tzoffset("A", float("nan"))
+                elif op[1] == "name_unhashable":
+                    tz.tzoffset(["A"], 3600)
+                elif op[1] == "tzstr_junk":
+                    tz.tzstr("EST5EDT,@")
+                else:
+                    tz.tzstr(None)
+            except (Deadlock, BudgetExceeded):
+                raise
+            except Exception as e:
+                with K.mute():
+                    sim.tick()
+                    ctx.probe("bad_request_raised")
+                    ctx.event(self.name, "bad_request", op[1],
+                              type(e).__name__)
+            else:
+                with K.mute():
+                    sim.tick()
+                    ctx.event(self.name, "bad_request", op[1], "returned")
+            return
         if k == "drop":
             with K.mute():
                 rec = sim.held.pop((self.name, op[1]), None)
